@@ -18,11 +18,12 @@ GEOMS_EXH_QUICK = [  # (nd, np, zmode, hashsize, ncontent, nfiles[, kind])
     (2, 1, False, None, 1, 6), (3, 1, False, 4, 2, 8), (2, 2, False, None, 2, 7), (3, 2, False, None, 1, 10),
     (4, 2, False, 4, 1, 12), (2, 3, True, None, 1, 6), (3, 3, False, None, 1, 9), (2, 4, False, None, 1, 6),
     (2, 6, False, 8, 1, 5), (4, 1, False, None, 3, 20), (3, 3, True, 4, 1, 8), (2, 5, False, None, 1, 4),
-    (3, 2, False, None, 1, 8, 'hist'), (2, 2, False, None, 1, 4, 'twins'), (3, 1, False, None, 1, 5, 'twins'), (3, 2, False, None, 1, 8, 'rehash'), (2, 1, False, 8, 1, 6, 'rehash'),
+    (3, 2, False, None, 1, 8, 'hist'), (2, 2, False, None, 1, 4, 'twins'), (3, 1, False, None, 1, 5, 'twins'), (3, 2, False, None, 1, 8, 'rehash'), (2, 1, False, 8, 1, 6, 'rehash'), (3, 2, False, None, 1, 6, 'rehash_sync'),
 ]
 GEOMS_EXH_THOROUGH = GEOMS_EXH_QUICK + [
     (4, 3, False, None, 1, 14), (3, 4, False, None, 1, 10), (4, 4, False, 4, 1, 12), (3, 5, False, None, 1, 8), (3, 6, False, None, 1, 8),
     (4, 3, True, None, 2, 16), (2, 2, False, 4, 1, 5), (3, 2, False, None, 3, 1), (4, 6, False, None, 1, 18),
+    (2, 2, False, None, 2, 5, 'rehash_sync'), (4, 3, False, None, 1, 10, 'rehash_sync'),
 ]
 
 
@@ -49,10 +50,28 @@ class Trial:
         r = self.arr.run('sync', '--test-force-murmur3')
         if r.rc == 0 and self.kind in ('hist', 'twins'):
             r = self.history()
-        if r.rc == 0 and self.kind == 'rehash':
+        if r.rc == 0 and self.kind in ('rehash', 'rehash_sync'):
             r = self.arr.run('rehash')
             self.recipe.append(('rehash', r.rc))
             model = None
+            if r.rc == 0 and self.kind == 'rehash_sync':
+                # BEFORE the migration is completed a sync adds and rewrites files: their blocks land in stripes still flagged
+                # (used by the other disks) as well as in new ones; the other stripes keep the old hash kind
+                a = self.arr
+                base = 1700001000 * 10**9
+                for k, d in enumerate(a.disks):
+                    for n in (['n%d' % k, 'sub/n%d' % k] if self.rng.random() < 0.5 else ['n%d' % k]):
+                        size = self.rng.choice([700, 1024, 3500, 2048, 5000])
+                        a.write(d, n, self.rng.randbytes(size), mtime_ns=base + self.rng.randrange(10**9))
+                        self.recipe.append(('file', d, n, size))
+                ex = sorted((d, rel) for (d, rel), v in a.snapshot_data().items() if v[0] == 'f' and v[4] == 1 and len(v[1]) > 0 and not rel.startswith(('n', 'sub/n')))
+                if ex:
+                    d, rel = self.rng.choice(ex)
+                    size = self.rng.choice([1024, 3000, 100])
+                    a.write(d, rel, self.rng.randbytes(size), mtime_ns=base + self.rng.randrange(10**9))
+                    self.recipe.append(('rewrite', d, rel, size))
+                r = a.run('sync')
+                self.recipe.append(('sync', r.rc))
         self.ok = (r.rc == 0)
         self.ntrials = self.nmodel = self.nblocks_damaged = 0
         self.samples = []
@@ -66,7 +85,7 @@ class Trial:
             chk.violation('sync_inv', 'after the initial sync: %s' % e, {'geom': geom, 'seed': seed, 'recipe': self.recipe})
             self.ok = False
         self.stripes, self.order = self.arr.stripes(self.st)
-        self.mb = c01_model.ModelSide(self.arr, self.st, model) if (model and self.kind != 'rehash') else None
+        self.mb = c01_model.ModelSide(self.arr, self.st, model) if (model and self.kind not in ('rehash', 'rehash_sync')) else None
 
     def history(self):
         """1-2 rounds of changes followed by a full sync: files touched (same bytes, new time-stamp), rewritten with the same or
